@@ -6,6 +6,11 @@ namespace Cel.Coll
 
 /-! ### map -/
 
+/-- element-wise relation between two lists (core Lean has no `Forall2`) -/
+inductive Forall2 {α β : Type} (R : α → β → Prop) : List α → List β → Prop
+  | nil : Forall2 R [] []
+  | cons {a b l r} : R a b → Forall2 R l r → Forall2 R (a :: l) (b :: r)
+
 theorem mapM_nil (f : V → PyM V) : mapM f [] = .ok [] := by
   simp [mapM, List.mapM_nil, pure, Except.pure]
 
@@ -15,7 +20,7 @@ theorem mapM_cons (f : V → PyM V) (x : V) (xs : List V) :
 
 /-- `mapM f l = .ok r` exactly when `r` is the element-wise image -/
 theorem mapM_ok_iff (f : V → PyM V) : ∀ (l r : List V),
-    mapM f l = .ok r ↔ List.Forall₂ (fun x y => f x = .ok y) l r := by
+    mapM f l = .ok r ↔ Forall2 (fun x y => f x = .ok y) l r := by
   intro l
   induction l with
   | nil =>
@@ -45,13 +50,13 @@ theorem mapM_ok_iff (f : V → PyM V) : ∀ (l r : List V),
         have := (ih ys).mpr hrest
         simp [hx, this, bind, Except.bind, pure, Except.pure]
 
-theorem forall₂_length {α β} {R : α → β → Prop} {l : List α} {r : List β} (h : List.Forall₂ R l r) :
+theorem forall₂_length {α β} {R : α → β → Prop} {l : List α} {r : List β} (h : Forall2 R l r) :
     l.length = r.length := by
   induction h with
   | nil => rfl
   | cons _ _ ih => simp [ih]
 
-theorem forall₂_get {α β} {R : α → β → Prop} {l : List α} {r : List β} (h : List.Forall₂ R l r) :
+theorem forall₂_get {α β} {R : α → β → Prop} {l : List α} {r : List β} (h : Forall2 R l r) :
     ∀ (i : Nat) (x : α), l[i]? = some x → ∃ y, r[i]? = some y ∧ R x y := by
   induction h with
   | nil => intro i x hx; simp at hx
@@ -89,7 +94,6 @@ theorem filterM_total (p : V → PyM V) (b : V → V) (l : List V) (h : ∀ x, x
   | nil => rfl
   | cons x xs ih =>
     simp only [filterM, h x (by simp), ih (fun y hy => h y (by simp [hy])), bind, Except.bind, List.filter_cons]
-    split <;> rfl
 
 theorem filterM_sublist (p : V → PyM V) : ∀ (l r : List V), filterM p l = .ok r → r.Sublist l := by
   intro l
@@ -107,7 +111,7 @@ theorem filterM_sublist (p : V → PyM V) : ∀ (l r : List V), filterM p l = .o
         simp only [hx, hxs, bind, Except.bind] at h
         have hs := ih rest hxs
         split at h
-        · injection h with h; subst h; exact hs.cons₂ x
+        · injection h with h; subst h; exact hs.cons_cons x
         · injection h with h; subst h; exact hs.cons x
 
 theorem countM_total (p : V → PyM V) (b : V → V) (l : List V) (h : ∀ x, x ∈ l → p x = .ok (b x)) :
@@ -149,31 +153,36 @@ theorem allFold_false (p : V → PyM V) (l : List V) (h : ∀ x, x ∈ l → ∃
     exact ih (fun y hy => h y (by simp [hy]))
 
 /-- the Kleene disjunction of a list of three-valued outcomes, starting from an accumulator -/
+def V.isTrue : V → Bool
+  | .bool true => true | _ => false
+def V.isFalse : V → Bool
+  | .bool false => true | _ => false
+
 def kor3 (acc : V) (bs : List V) : V :=
-  if acc = .bool true ∨ .bool true ∈ bs then .bool true
-  else if acc = .err ∨ .err ∈ bs then .err
+  if acc.isTrue || bs.any V.isTrue then .bool true
+  else if acc.isErr || bs.any V.isErr then .err
   else .bool false
 
 def kand3 (acc : V) (bs : List V) : V :=
-  if acc = .bool false ∨ .bool false ∈ bs then .bool false
-  else if acc = .err ∨ .err ∈ bs then .err
+  if acc.isFalse || bs.any V.isFalse then .bool false
+  else if acc.isErr || bs.any V.isErr then .err
   else .bool true
 
 theorem vor_step (acc b : V) (ha : IsB3 acc) (hb : IsB3 b) :
     ∃ v, catching [.typeError] (vor acc b) = .ok v ∧ IsB3 v ∧ ∀ bs, kor3 v bs = kor3 acc (b :: bs) := by
   rcases ha with rfl | rfl | rfl <;> rcases hb with rfl | rfl | rfl <;>
-    simp [vor, catching, IsB3, kor3]
+    simp [vor, catching, IsB3, kor3, V.isTrue, V.isErr]
 
 theorem vand_step (acc b : V) (ha : IsB3 acc) (hb : IsB3 b) :
     ∃ v, catching [.typeError] (vand acc b) = .ok v ∧ IsB3 v ∧ ∀ bs, kand3 v bs = kand3 acc (b :: bs) := by
   rcases ha with rfl | rfl | rfl <;> rcases hb with rfl | rfl | rfl <;>
-    simp [vand, catching, IsB3, kand3]
+    simp [vand, catching, IsB3, kand3, V.isFalse, V.isErr]
 
 theorem existsFold_spec (p : V → PyM V) (b : V → V) (l : List V) (acc : V) (ha : IsB3 acc)
     (h : ∀ x, x ∈ l → p x = .ok (b x) ∧ IsB3 (b x)) :
     existsFold p l acc = .ok (kor3 acc (l.map b)) := by
   induction l generalizing acc with
-  | nil => rcases ha with rfl | rfl | rfl <;> simp [existsFold, kor3]
+  | nil => rcases ha with rfl | rfl | rfl <;> simp [existsFold, kor3, V.isTrue, V.isErr]
   | cons x xs ih =>
     obtain ⟨hx, hbx⟩ := h x (by simp)
     obtain ⟨v, hv, hv3, hk⟩ := vor_step acc (b x) ha hbx
@@ -184,12 +193,33 @@ theorem allFold_spec (p : V → PyM V) (b : V → V) (l : List V) (acc : V) (ha 
     (h : ∀ x, x ∈ l → p x = .ok (b x) ∧ IsB3 (b x)) :
     allFold p l acc = .ok (kand3 acc (l.map b)) := by
   induction l generalizing acc with
-  | nil => rcases ha with rfl | rfl | rfl <;> simp [allFold, kand3]
+  | nil => rcases ha with rfl | rfl | rfl <;> simp [allFold, kand3, V.isFalse, V.isErr]
   | cons x xs ih =>
     obtain ⟨hx, hbx⟩ := h x (by simp)
     obtain ⟨v, hv, hv3, hk⟩ := vand_step acc (b x) ha hbx
     simp only [allFold, hx, hv, bind, Except.bind, List.map_cons]
     rw [ih v hv3 (fun y hy => h y (by simp [hy])), hk]
+
+/-- for a total boolean predicate the folds are `any` / `all` (accumulator-generalised) -/
+theorem existsFold_bool (p : V → PyM V) (q : V → Bool) (l : List V) (acc : Bool)
+    (h : ∀ x, x ∈ l → p x = .ok (.bool (q x))) :
+    existsFold p l (.bool acc) = .ok (.bool (acc || l.any q)) := by
+  induction l generalizing acc with
+  | nil => simp [existsFold]
+  | cons x xs ih =>
+    simp only [existsFold, h x (by simp), bind, Except.bind, vor, catching]
+    rw [ih (acc || q x) (fun y hy => h y (by simp [hy]))]
+    simp [Bool.or_assoc]
+
+theorem allFold_bool (p : V → PyM V) (q : V → Bool) (l : List V) (acc : Bool)
+    (h : ∀ x, x ∈ l → p x = .ok (.bool (q x))) :
+    allFold p l (.bool acc) = .ok (.bool (acc && l.all q)) := by
+  induction l generalizing acc with
+  | nil => simp [allFold]
+  | cons x xs ih =>
+    simp only [allFold, h x (by simp), bind, Except.bind, vand, catching]
+    rw [ih (acc && q x) (fun y hy => h y (by simp [hy]))]
+    simp [Bool.and_assoc]
 
 /-! ### membership = exists -/
 
@@ -208,21 +238,21 @@ theorem eq3_isB3 (y x : V) : IsB3 (eq3 y x) := by
 theorem inLoop_spec (x : V) (l : List V) (acc : V) (ha : acc = .bool false ∨ acc = .err) :
     inLoop x l acc = kor3 acc (l.map (fun y => eq3 y x)) := by
   induction l generalizing acc with
-  | nil => rcases ha with rfl | rfl <;> simp [inLoop, kor3]
+  | nil => rcases ha with rfl | rfl <;> simp [inLoop, kor3, V.isTrue, V.isErr]
   | cons y ys ih =>
     simp only [inLoop, List.map_cons]
     cases hv : veq y x with
     | ok b =>
       cases b with
-      | true => simp [kor3, eq3, hv]
+      | true => simp [kor3, eq3, hv, V.isTrue]
       | false =>
         simp only []
         rw [ih acc ha]
-        rcases ha with rfl | rfl <;> simp [kor3, eq3, hv]
+        rcases ha with rfl | rfl <;> simp [kor3, eq3, hv, V.isTrue, V.isErr]
     | error e =>
       simp only []
       rw [ih .err (Or.inr rfl)]
-      rcases ha with rfl | rfl <;> simp [kor3, eq3, hv]
+      rcases ha with rfl | rfl <;> simp [kor3, eq3, hv, V.isTrue, V.isErr]
 
 /-! ### strings -/
 
